@@ -223,6 +223,9 @@ def render_struct(s):
 
 def render_enum(e):
     out = ["enum %s:" % e.name]
+    if getattr(e, "enum_case", None):
+        # C++ spelling of the enumerators only: names in .emb text and in the text format stay as written
+        out.append('  [(cpp) $default enum_case: "%s"]' % e.enum_case)
     if e.is_signed is not None:
         out.append("  [is_signed: %s]" % ("true" if e.is_signed else "false"))
     if e.maximum_bits is not None:
